@@ -4,7 +4,7 @@ META = {
     "property": "C09",
     "level": "fault_enumeration",
     "rule": (
-        "case i of seed s is generated from default_rng([s, i]); i%4 selects the kind: "
+        "case i of seed s is generated from default_rng([s, i]); (i + i//16)%4 selects the kind: "
         "0 round trip of a random 3-d field through bin8/bin4/txt + independent OVF 2.0 "
         "reader on the written bytes; 1 files from an independent OVF 1.0/2.0 writer "
         "(txt/bin4/bin8, OOMMF/mumax style) read by Field.from_file; 2 fault enumeration "
@@ -16,7 +16,7 @@ META = {
         "non-trivial when the mesh has >= 2 cells along at least two directions (an axis "
         "transposition is then visible) or, for fault cases, always."
     ),
-    "cases": {"quick": 160, "thorough": 4800},
+    "cases": {"quick": 320, "thorough": 4800},
     "workers": {"quick": 8, "thorough": 16},
     "timeout": {"quick": 600, "thorough": 5400},
     "deciding": [
@@ -439,7 +439,7 @@ def extend_scalar_vector(ctx, tmp):
     ctx.sig(("extend_scalar_vector", nvdim) + spec.signature(),
             nontrivial=_visible_transposition(spec.n))
     exp_labels = ig.expected_labels(nvdim, labels)
-    for rep in REPS:
+    for rep in (gen.pick(rng, REPS),):  # one representation: keeps the volume small
         fn = os.path.join(tmp, f"xv_{rep}.ovf")
         what = {"representation": rep, "nvdim": nvdim, "extend_scalar_on_vector": True,
                 "labels": labels, "spec": spec.describe()}
@@ -511,7 +511,7 @@ def sample_files(ctx, tmp, k):
 def run_case(ctx, i):
     tmp = tempfile.mkdtemp(prefix="c09_")
     try:
-        kind = i % 4
+        kind = ig.kind_of(i)
         if kind == 0:
             roundtrip(ctx, tmp)
         elif kind == 1:
@@ -519,14 +519,15 @@ def run_case(ctx, i):
         elif kind == 2:
             faults(ctx, tmp)
         else:
-            sub = (i // 4) % 8
-            if sub in (0, 1, 2, 3):
-                extend_scalar(ctx, tmp)
-            elif sub == 4:
+            g = i // 4  # one kind-3 case per group of four indices
+            sub = g % 16
+            if g == 3 or (sub < 8 and ctx.rng.random() < 1 / 16):
                 extend_scalar_vector(ctx, tmp)
-            elif sub == 5:
-                chunk_crossing(ctx, tmp)
+            elif sub < 8:
+                extend_scalar(ctx, tmp)
+            elif sub < 13:
+                sample_files(ctx, tmp, (g // 16) * 5 + (sub - 8))
             else:
-                sample_files(ctx, tmp, i // 32 * 2 + (sub - 6))
+                chunk_crossing(ctx, tmp)
     finally:
         shutil.rmtree(tmp, ignore_errors=True)
